@@ -16,6 +16,7 @@
 import ElfVerif.Lemmas.Stream
 import ElfVerif.Lemmas.OpenEquiv
 import ElfVerif.Lemmas.QueryEquiv
+import ElfVerif.Lemmas.QueryConverse
 namespace Elf.C07
 
 /- `Elf.SameBytes a b`: same length and same bytes (the stream hands out copies, so location is not
@@ -225,6 +226,122 @@ theorem symbol_version_table_refines (s : ElfStream) (f : ElfBytes) (c : Array U
        | some t, some t' => SymVerSim t' t
        | _, _ => False) :=
   symver_refines s f c hs o h
+
+/-! ## Success and failure coincide exactly (section data, segment notes, both symbol tables, the
+     symbol version table)
+
+  For these queries the property asks for more than refinement: the stream query succeeds *exactly*
+  when the slice query does.  The converse direction — a stream answer implies a slice answer with
+  the same content — is proved for each (Lemmas/QueryConverse.lean); together with the refinement
+  theorems above this gives the equivalences below. -/
+
+theorem section_data_converse (s : ElfStream) (f : ElfBytes) (c : Array UInt8) (hs : Sim s f c) (sh : SectionHeader)
+    (hnc : sh.sh_flags &&& Abi.SHF_COMPRESSED = 0) (b : Slice) (ch : Option CompressionHeader) (s' : ElfStream)
+    (h : s.sectionData sh = (.ok (b, ch), s')) :
+    ∃ w, f.sectionData sh = .ok (w, ch) ∧ SameBytes b w :=
+  sectionData_converse s f c hs sh hnc b ch s' h
+
+theorem segment_notes_converse' (s : ElfStream) (f : ElfBytes) (c : Array UInt8) (hs : Sim s f c) (ph : ProgramHeader)
+    (it' : NoteIter) (s' : ElfStream) (h : s.segmentDataAsNotes ph = (.ok it', s')) :
+    ∃ it, f.segmentDataAsNotes ph = .ok it ∧ NoteSim it' it :=
+  segment_notes_converse s f c hs ph it' s' h
+
+theorem symbol_table_converse (s : ElfStream) (f : ElfBytes) (c : Array UInt8) (hs : Sim s f c) (ty : Nat)
+    (o' : Option (Table Symbol × Slice)) (s' : ElfStream) (h : s.symbolTableOfType ty = (.ok o', s')) :
+    ∃ o, f.symbolTableOfType ty = .ok o ∧
+      (match o, o' with
+       | none, none => True
+       | some (t, st), some (t', st') => TableSim t' t ∧ SameBytes st' st
+       | _, _ => False) :=
+  symtab_converse s f c hs ty o' s' h
+
+theorem symbol_version_table_converse (s : ElfStream) (f : ElfBytes) (c : Array UInt8) (hs : Sim s f c)
+    (o' : Option SymbolVersionTable) (s' : ElfStream) (h : s.symbolVersionTable = (.ok o', s')) :
+    ∃ o, f.symbolVersionTable = .ok o ∧
+      (match o, o' with
+       | none, none => True
+       | some t, some t' => SymVerSim t' t
+       | _, _ => False) :=
+  symver_converse s f c hs o' s' h
+
+/-- **success/failure coincide**: `section_data` (uncompressed section) -/
+theorem section_data_ok_iff (s : ElfStream) (f : ElfBytes) (c : Array UInt8) (hs : Sim s f c) (sh : SectionHeader)
+    (hnc : sh.sh_flags &&& Abi.SHF_COMPRESSED = 0) :
+    (f.sectionData sh).isOk = (s.sectionData sh).1.isOk := by
+  cases hf : f.sectionData sh with
+  | ok x =>
+    obtain ⟨w, ch⟩ := x
+    obtain ⟨b, s', h1, _, _⟩ := sectionData_refines s f c hs sh hnc w ch hf
+    rw [h1]; rfl
+  | err e =>
+    cases hq : (s.sectionData sh) with
+    | mk q1 q2 =>
+      cases q1 with
+      | ok y =>
+        obtain ⟨b, ch⟩ := y
+        obtain ⟨w, h1, _⟩ := sectionData_converse s f c hs sh hnc b ch q2 hq
+        rw [hf] at h1; cases h1
+      | err e' => rfl
+      | panic => rfl
+  | panic =>
+    exact absurd hf (C01.section_data_total f sh)
+
+/-- **success/failure coincide**: `segment_data_as_notes` -/
+theorem segment_notes_ok_iff (s : ElfStream) (f : ElfBytes) (c : Array UInt8) (hs : Sim s f c) (ph : ProgramHeader) :
+    (f.segmentDataAsNotes ph).isOk = (s.segmentDataAsNotes ph).1.isOk := by
+  cases hf : f.segmentDataAsNotes ph with
+  | ok it =>
+    obtain ⟨it', s', h1, _, _⟩ := Elf.segment_notes_refines s f c hs ph it hf
+    rw [h1]; rfl
+  | err e =>
+    cases hq : (s.segmentDataAsNotes ph) with
+    | mk q1 q2 =>
+      cases q1 with
+      | ok y =>
+        obtain ⟨it, h1, _⟩ := segment_notes_converse s f c hs ph y q2 hq
+        rw [hf] at h1; cases h1
+      | err e' => rfl
+      | panic => rfl
+  | panic =>
+    exact absurd hf (C01.segment_data_as_notes_total f ph)
+
+/-- **success/failure coincide**: `symbol_table` / `dynamic_symbol_table` -/
+theorem symbol_table_ok_iff (s : ElfStream) (f : ElfBytes) (c : Array UInt8) (hs : Sim s f c) (ho : C01.Opened f) (ty : Nat) :
+    (f.symbolTableOfType ty).isOk = (s.symbolTableOfType ty).1.isOk := by
+  cases hf : f.symbolTableOfType ty with
+  | ok o =>
+    obtain ⟨o', s', h1, _, _⟩ := symtab_refines s f c hs ty o hf
+    rw [h1]; rfl
+  | err e =>
+    cases hq : (s.symbolTableOfType ty) with
+    | mk q1 q2 =>
+      cases q1 with
+      | ok y =>
+        obtain ⟨o, h1, _⟩ := symtab_converse s f c hs ty y q2 hq
+        rw [hf] at h1; cases h1
+      | err e' => rfl
+      | panic => rfl
+  | panic =>
+    exact absurd hf (C01.symbol_table_of_type_total f ho ty)
+
+/-- **success/failure coincide**: `symbol_version_table` -/
+theorem symbol_version_table_ok_iff (s : ElfStream) (f : ElfBytes) (c : Array UInt8) (hs : Sim s f c) (ho : C01.Opened f) :
+    f.symbolVersionTable.isOk = s.symbolVersionTable.1.isOk := by
+  cases hf : f.symbolVersionTable with
+  | ok o =>
+    obtain ⟨o', s', h1, _, _⟩ := symver_refines s f c hs o hf
+    rw [h1]; rfl
+  | err e =>
+    cases hq : s.symbolVersionTable with
+    | mk q1 q2 =>
+      cases q1 with
+      | ok y =>
+        obtain ⟨o, h1, _⟩ := symver_converse s f c hs y q2 hq
+        rw [hf] at h1; cases h1
+      | err e' => rfl
+      | panic => rfl
+  | panic =>
+    exact absurd hf (C01.symbol_version_table_total f ho)
 
 /- The scoping of `dynamic_table_refines` is necessary, not a proof artefact: on this 184-byte
    file (section header table present but empty: `e_shoff ≠ 0`, `e_shnum = 0`, `shdr[0].sh_size = 0`;
